@@ -391,7 +391,9 @@ def checkformat_byteslike(byteslike: Any) -> BytesLike:
 
 def checkformat_natural_int(natural_int: Any) -> int:  # Annotated[int, ">= 1"]
     # Technically a TypeError or ValueError, depending, but meh.
-    if int(natural_int) != natural_int or natural_int < 1:
+    # Only true integers: floats would make "version + 1" inexact (2.0**53 + 1
+    # == 2.0**53) and int() overflows on infinity.
+    if not isinstance(natural_int, int) or natural_int < 1:
         raise ValueError("Expected an integer >= 1.")
 
     return natural_int
